@@ -265,6 +265,28 @@ def _platpair_chunk(states):
             fails.append((f"C16:platform({st['p']['os']},{st['p']['arch']}):newer-loses-tags",
                           f"{p} accepts {sorted(tp - tq)[:3]} which the newer {q} does not", {"p": st["p"], "q": st["q"]}))
         # (whether unrelated platforms happen to nest is not part of the property: no clause for it)
+        # EnvSpec.compare on the real pair (same requires_python, no implementation): the property's clauses
+        try:
+            from dep_logic.specifiers import parse_version_specifier
+            from dep_logic.tags import EnvSpec
+            rp = parse_version_specifier(">=3.8")
+            x, y = EnvSpec(rp, p), EnvSpec(rp, q)
+            c, rv = x.compare(y).name, y.compare(x).name
+        except Exception as e:  # noqa: BLE001
+            fails.append((f"C16:compare({st['p']['os']},{st['q']['os']}):raises-{type(e).__name__}", repr(e), {"p": st["p"], "q": st["q"]}))
+            continue
+        oscls = f"{st['p']['os']},{st['q']['os']}"
+        ctx = {"p": st["p"], "q": st["q"], "compare": c, "reverse": rv, "spec_compare": st["obs"]["cmp"]}
+        if st["p"] == st["q"] and c != "LOWER_OR_EQUAL":
+            fails.append((f"C16:compare({oscls}):not-reflexive", f"{x}.compare(itself) = {c}", ctx))
+        if (c == "INCOMPATIBLE") != (rv == "INCOMPATIBLE"):
+            fails.append((f"C16:compare({oscls}):incompatible-asymmetric", f"{x} vs {y}: {c} / {rv}", ctx))
+        if c == "HIGHER" and rv == "HIGHER":
+            fails.append((f"C16:compare({oscls}):higher-both-ways", f"{x} vs {y}", ctx))
+        if c == "LOWER_OR_EQUAL" and not tp <= tq:
+            fails.append((f"C16:compare({oscls}):le-without-nesting", f"{x} <= {y} but {sorted(tp - tq)[:3]} are accepted by the first only", ctx))
+        if c == "HIGHER" and not tq <= tp:
+            fails.append((f"C16:compare({oscls}):higher-without-nesting", f"{x} > {y} but {sorted(tq - tp)[:3]} are accepted by the second only", ctx))
     return n, fails
 
 
